@@ -562,6 +562,41 @@ func (dm *DagModifier) appendData(nd ipld.Node, spl chunker.Splitter) (ipld.Node
 
 	switch nd := nd.(type) {
 	case *mdag.ProtoNode:
+		if len(nd.Links()) == 0 {
+			// A leaf that holds file data inline (what the balanced importer creates
+			// for a one-chunk file without raw leaves) cannot take children: readers
+			// and this modifier ignore the inline data of a node that has links, so
+			// the old bytes would be lost. Move the leaf under a new root first, as
+			// is done for a RawNode below.
+			fsn, err := ft.FSNodeFromBytes(nd.Data())
+			if err != nil {
+				return nil, err
+			}
+			if len(fsn.Data()) > 0 {
+				if err := dagserv.Add(dm.ctx, nd); err != nil {
+					return nil, err
+				}
+				rootFsn := ft.NewFSNode(ft.TFile)
+				rootFsn.AddBlockSize(uint64(len(fsn.Data())))
+				if fsn.Mode() != 0 {
+					rootFsn.SetMode(fsn.Mode())
+				}
+				if !fsn.ModTime().IsZero() {
+					rootFsn.SetModTime(fsn.ModTime())
+				}
+				rootBytes, err := rootFsn.GetBytes()
+				if err != nil {
+					return nil, err
+				}
+				root := mdag.NodeWithData(rootBytes)
+				root.SetCidBuilder(nd.CidBuilder())
+				if err := root.AddNodeLink("", nd); err != nil {
+					return nil, err
+				}
+				nd = root
+			}
+		}
+
 		// ProtoNode can be directly passed to trickle.Append
 		dbp := &help.DagBuilderParams{
 			Dagserv:    dagserv,
